@@ -279,8 +279,6 @@ func (m *wireMon) onEmit(p *wirePacket) {
 		w.violate("C12", "malformed-emission", "%s emitted a packet the independent decoder rejects: %s (raw %x)", m.name(X), p.decodeErr, p.raw)
 		return
 	}
-	m.checkCodec(p)
-
 	// ---- C13: checksum emission rule
 	first := uint8(255)
 	if len(p.chunks) > 0 {
@@ -297,6 +295,9 @@ func (m *wireMon) onEmit(p *wirePacket) {
 			}
 			m.count("zero-crc-emitted")
 		}
+	}
+	if w.viol == nil {
+		m.checkCodec(p)
 	}
 
 	// ---- C04: after the handshake every packet carries the peer's initiate tag
